@@ -57,7 +57,8 @@ impl<'a> ZoneModel<'a> {
             return Fwd::Unspecified;
         }
         match self.class.unwrap() {
-            Class::Overlap | Class::Unstable => Fwd::Unspecified,
+            Class::Unstable => Fwd::Unspecified,
+            Class::Overlap if crate::search::overlap_listed_as_known() => Fwd::Unspecified,
             c => Fwd::Type(if orule::is_dst(r, c, u) { TypeRef::RuleDst } else { TypeRef::RuleStd }),
         }
     }
